@@ -449,6 +449,11 @@ func witnesses() []genInput {
 		// `&` inside :not() under a list, lowered for a target without :is()
 		{ID: "witness-1", Items: []Item{
 			{K: "rule", Path: []PathEl{selEl(".a,.b"), selEl(":not(&) .c")}, Decls: color("red")}}},
+		// `&` inside :not() under a parent with a combinator, lowered for a target without complex :not(),
+		// next to a rule whose lowered form such browsers do understand
+		{ID: "witness-3", Items: []Item{
+			{K: "rule", Path: []PathEl{selEl("p"), selEl(":not(&) .c")}, Decls: color("blue")},
+			{K: "rule", Path: []PathEl{selEl("p+p"), selEl(":not(&) .c")}, Decls: color("red")}}},
 	}
 	// regression sheets of the defects this check found and that were fixed in /repo
 	one := func(p string, imp bool, vals ...string) Decl {
